@@ -24,6 +24,8 @@ fn descs() -> Vec<FnDesc> {
         FnDesc { name: "cn", cacheable: true, kind: Kind::N, suspend: 0 },
         FnDesc { name: "ce", cacheable: true, kind: Kind::E, suspend: 0 },
         FnDesc { name: "nb", cacheable: false, kind: Kind::V, suspend: 0 },
+        FnDesc { name: "cr", cacheable: true, kind: Kind::ER, suspend: 0 },
+        FnDesc { name: "nr", cacheable: false, kind: Kind::ER, suspend: 0 },
     ]
 }
 
@@ -205,7 +207,7 @@ fn exhaustive(ctx: &mut Ctx, max_len: usize) {
 fn random(ctx: &mut Ctx, n: usize) {
     let mut rng: Rng = ctx.rng.clone();
     let a = args();
-    let fns = ["ca", "cb", "na", "cn", "ce", "nb"];
+    let fns = ["ca", "cb", "na", "cn", "ce", "nb", "cr", "nr"];
     for _ in 0..n {
         let len = 1 + rng.below(12);
         // few distinct arguments per history so that repeats are common
@@ -235,7 +237,7 @@ fn run(ctx: &mut Ctx) {
 
 fn finish(m: &Merged, tier: Tier) -> Finish {
     let mut f = Finish {
-        rule: "a history is a sequence of user-function calls spread over 1-5 rules of one ruleset (6 instrumented functions: cacheable / non-cacheable, always-failing, None-returning; 19 look-alike arguments such as i1 / \"1\" / \"i1\" / [i1] / f1 / d1 / {a:i1} / none; nested calls) under a fault plan (fail the j-th invocation of (function, argument)). The invocation log of each of three consecutive evaluations must equal the log predicted by a sequential per-evaluation cache model, and every outcome the model's (including UserFunctionError{function, original text}). Non-trivial = histories with >= 2 calls; distinct by predicted invocation sequence".into(),
+        rule: "a history is a sequence of user-function calls spread over 1-5 rules of one ruleset (8 instrumented functions: cacheable / non-cacheable, always-failing (with a plain error and with an error that is itself a reval::Error), None-returning; 19 look-alike arguments such as i1 / \"1\" / \"i1\" / [i1] / f1 / d1 / {a:i1} / none; nested calls) under a fault plan (fail the j-th invocation of (function, argument)). The invocation log of each of three consecutive evaluations must equal the log predicted by a sequential per-evaluation cache model, and every outcome the model's (including UserFunctionError{function, original text}). Non-trivial = histories with >= 2 calls; distinct by predicted invocation sequence".into(),
         exhaustive: false,
         exhaustive_part: format!("all call sequences of length <= {} over 3 functions x 3 arguments, each under every fault plan with <= 2 faults out of 8 (37 plans)", tier.of(3, 4)),
         ..Default::default()
